@@ -428,11 +428,11 @@ def gen_hist(tier, rng):
         continue
       yield finish([kinded(p, rot)], decorate(ops, rot), ["exh2", p[0]])
   if tier != "quick":   # all triples over a reduced set of counts
-    for p in POOL:
+    for p in POOL[:3]:
       for ops in histories(3, [("s",)], COUNTS3):
         yield finish([kinded(p, rot)], decorate(ops, rot), ["exh3", p[0]])
   # sampled triples / quadruples on the same pools
-  n = 1500 if tier == "quick" else 40000
+  n = 1500 if tier == "quick" else 20000
   for _ in range(n):
     p, ln = rng.choice(POOL), rng.choice([3, 4])
     ops, kinds = [], [("s",)]
